@@ -126,6 +126,16 @@ ULP_TOL = 4   # "up to float-text precision": serde_json's default number parser
 def same_vertices(a, b):
     return len(a) == len(b) and all(ulps(x, y) <= ULP_TOL for p, q in zip(a, b) for x, y in zip(p, q))
 
+def area_rounding(*loops):
+    """allowance for the floating-point shoelace sums the crate evaluates on the stored coordinates (a few ulps of
+    sum |v_i| |v_i+1|): it dominates TOL * area for a small outline at an offset of 1e3"""
+    import math
+    t = 0.0
+    for vs in loops:
+        m = [math.sqrt(sum(float(x) * float(x) for x in p)) for p in vs]
+        t += sum(m[i] * m[(i + 1) % len(m)] for i in range(len(m)))
+    return 16 * 2.0 ** -52 * t
+
 def oracle(c, st):
     k = c['kind']
     if k in (7, 8):
@@ -158,7 +168,7 @@ def oracle(c, st):
         R = LoopJ(c['loop'], st)
         if not same_vertices(R.v, L.v): return ('C20:roundtrip-vertices', 'round trip changed the vertices (%d -> %d, beyond 4 ulp)' % (len(L.v), len(R.v)))
         if not R.closed: return ('C20:roundtrip-open', 'the loop read back is not closed')
-        if abs(R.ap[0] - L.ap[0]) > TOL * max(L.ap[0], 1e-6): return ('C20:roundtrip-area', 'area %r read back as %r' % (L.ap[0], R.ap[0]))
+        if abs(R.ap[0] - L.ap[0]) > TOL * max(L.ap[0], 1e-6) + area_rounding(L.v, R.v): return ('C20:roundtrip-area', 'area %r read back as %r' % (L.ap[0], R.ap[0]))
         if max(abs(x - y) for x, y in zip(R.n, L.n)) > TOL: return ('C20:roundtrip-normal', 'normal %r read back as %r' % (L.n, R.n))
         P = c['poly']; PL = LoopJ(P['outer'], st)
         if P['ninner'] != 0 or not same_vertices(PL.v, L.v) or abs(fls([P['area']], st)[0] - L.ap[0]) > TOL * max(L.ap[0], 1e-6):
@@ -172,7 +182,7 @@ def oracle(c, st):
     P = c['poly']
     if P['ninner'] != 0: return ('C20:roundtrip-polygon', 'the polygon read back has holes')
     a = fls([P['area']], st)[0]
-    if abs(a - pa[0]) > TOL * max(pa[0], 1e-6): return ('C20:roundtrip-area', 'net area %r read back as %r' % (pa[0], a))
+    if abs(a - pa[0]) > TOL * max(pa[0], 1e-6) + area_rounding(LoopJ(P['outer'], st).v, L.v, *[LoopJ(h, st).v for h in src['holes']]): return ('C20:roundtrip-area', 'net area %r read back as %r' % (pa[0], a))
     if max(abs(x - y) for x, y in zip(fls(P['n'], st), pa[1:])) > TOL: return ('C20:roundtrip-normal', 'polygon normal changed in the round trip')
     return None
 
